@@ -7,12 +7,12 @@ claimed = {
  "C03": ("exploration", "Engine A: admission oracle from the model (admitted iff every token input unspent / unfrozen / owned / sized as cited and every read version current in S(tip)+pool), global double-spend scan over chain+pool, conflict families (same output, R-R / R-W / W-W on a key) split between pool, blocks, branches and walks", "model-based admission oracle + double-spend scan over seeded histories"),
  "C04": ("exploration", "Engine A: every ledger query (meta, block by id / header / height, InTrunk, next / prev links, tx lookup, tx-to-block, branch tips, undo/todo paths) compared with a block-tree model under the main-chain rule after every step; forks, reorganisations, truncations, reopen, shrunken LRU caches", "block-tree reference model, all queries compared after every step"),
  "C05": ("exploration", "Engine A with storage faults (k-th write unit fails, disk full, k-th read fails) and failing operations mixed in: after every step a second instance opened on a clone of the disk must answer the whole battery like the live one; an operation that reported failure must leave the battery unchanged", "live-vs-reopened differential + no-trace check under injected storage faults"),
+ "C06": ("fault_enumeration", "Engine A scenarios (tx admission, mining, sync with pending-block saves, reorganising walks, truncation) run with the write journal on; EVERY prefix of the sequence of write units across both databases (sampled only for scenarios with more than 64 units) is restarted: ledger and state open, ledger battery (C04) against the tree the image contains, C01 fresh replay and C02 sums at the persisted pointer, pool only holds applicable transactions, Walk(ledger tip) succeeds and matches a fresh replay, one more block and one more transfer are accepted", "exhaustive crash-point enumeration over the write journal of seeded scenarios"),
  "C13": ("exploration", "Engine A: producer pools with dependency chains, read-only sharers followed by writers, fee payers; map iteration orders are the explored dimension; every mined block is replayed on a fresh node and the reported pool order is applied to the model", "seeded map-order exploration + fresh-replica replay"),
  "C17": ("exploration", "Engine A with slide windows 0..5: irreversible height against the model (max applied height - w), monotone without prune, non-prune walks never leave the state on a chain excluding a finalised block, survives reopen", "finality model checked after every step"),
  "C18": ("exploration", "Engine A: key histories (create / overwrite / delete / re-create, several writes per block, pending writes) - snapshot reads at every main-chain block compared with the model state S(B) after every step", "snapshot reads vs reference model at every height"),
 }
 pending = {
- "C06": "crash-point enumeration engine not yet built in this snapshot",
  "C07": "corruption-operator engine not yet built in this snapshot",
  "C08": "block-corruption engine not yet built in this snapshot",
  "C09": "pre-exec / verify / commit engine not yet built in this snapshot",
